@@ -933,7 +933,7 @@ func ruleC03R10(c *Ctx) {
 			}
 		}
 	}
-	c.floor("C03.R10", "updates of the byte gauge", n, 5)
+	c.floor("C03.R10", "updates of the byte gauge", n, 3)
 }
 
 // stripLen: int64(len(x)) -> x
